@@ -144,6 +144,46 @@ Plan generate(const std::string& prop, int tier, uint64_t batchSeed, uint64_t id
                 c.set("th", t).set("propn", pn);
                 p.items.push_back(c);
             }
+            if (pn == 16 && (sameWorkload ? (sharedIdx % 2 == 0) : r.chance(1, 2)))
+            {
+                // a tour of the tracker's API in a state where every call does something: device known, interfaces known,
+                // a known interface removed, a new one appearing afterwards, the device removed and re-appearing, clear
+                // (a random subset of a random history rarely keeps such chains intact)
+                const uint64_t tr = sameWorkload ? sharedIdx : r.next();
+                const int64_t dev = 40 + static_cast<int64_t>(tr % 5);
+                int64_t tt = 2000000;
+                uint32_t mid = 990000 + static_cast<uint32_t>(tr % 1000) * 16;
+                auto upd = [&](int kind, int64_t ifid)
+                {
+                    Item op("op");
+                    op.set("k", OP_STATUPD).set("t", tt += 3).set("dev", dev).set("stream", 0).set("id", static_cast<int64_t>(mid++)).set("ts", tt).set("ifid", 7).set("flags", 0);
+                    op.set("build", 2).set("kind", kind).set("len", static_cast<int64_t>(minLenOf(kind)) + 12).set("th", t);
+                    if (kind == wire::K_IFSTAT)
+                        op.set("pifid", ifid);
+                    p.items.push_back(op);
+                };
+                auto act = [&](int what, int64_t ifid)
+                {
+                    Item op("op");
+                    op.set("k", OP_STATUS).set("t", tt += 3).set("what", what).set("dev", dev).set("ifid", ifid).set("th", t);
+                    p.items.push_back(op);
+                };
+                upd(wire::K_CMSTAT, 0);
+                upd(wire::K_IFSTAT, 11);
+                upd(wire::K_IFSTAT, 12);
+                act(2, 11);
+                upd(wire::K_IFSTAT, 13);
+                upd(wire::K_IFSTAT, 11);
+                act(2, 99);
+                act(1, dev);
+                upd(wire::K_CMSTAT, 0);
+                upd(wire::K_IFSTAT, 14);
+                act(3, 0);
+                // the tracker must exist in this thread's world
+                for (auto& it : p.items)
+                    if (it.tag == "cfg" && it.has("th") && it.get("th") == t)
+                        it.set("status", 1);
+            }
             if ((sameWorkload ? (sharedIdx % 6 == 0) : r.chance(1, 6)) && (pn == 5 || pn == 17 || pn == 18 || pn == 4 || pn == 6 || pn == 1))
             {
                 // a reassembly of 32 KiB and more on this thread (size-dependent paths: pools, reserve thresholds)
@@ -558,6 +598,8 @@ Plan genReasm(const std::string& prop, int tier, uint64_t batchSeed, uint64_t id
             }
             if (k > 0 && r.chance(1, 2))
                 s.set("alt", r.range(1, 255));
+            if (k == 0 && r.chance(1, 10))
+                s.set("lead", r.range(1, 3));  // unsegmented messages in front of the first segment, in its frame
             segs.push_back(std::move(s));
         }
         Item& op = g.addOp(OP_RAWSEG, node, nseg);
